@@ -366,15 +366,20 @@ impl GrammarAST {
             }
         }
 
-        for (k, (sp, _)) in self.epp.iter() {
-            if self.tokens.contains(k) {
-                continue;
-            }
-            if let Some(ref it) = self.implicit_tokens
-                && it.contains_key(k)
-            {
-                continue;
-            }
+        // `epp` is a randomly seeded `HashMap`: of several unknown tokens report the one declared
+        // first, so that the same source always gives the same error.
+        let unknown_epp = self
+            .epp
+            .iter()
+            .filter(|(k, _)| {
+                !(self.tokens.contains(*k)
+                    || self
+                        .implicit_tokens
+                        .as_ref()
+                        .is_some_and(|it| it.contains_key(*k)))
+            })
+            .min_by_key(|(_, (sp, _))| (sp.start(), sp.end()));
+        if let Some((k, (sp, _))) = unknown_epp {
             return Err(YaccGrammarError {
                 kind: YaccGrammarErrorKind::UnknownEPP(k.clone()),
                 spans: vec![*sp],
